@@ -290,8 +290,25 @@ fn row0_credit_mechanism(a: &Alignment, c: &BCall, sp: &ScoreSpec, recomputed: i
     d_all > v0 && starts_del_all && recomputed - a.score as i64 == d_all - v0
 }
 
+/// `match_scores` is the public (match, mismatch) summary the band construction uses as a hint for chaining
+/// k-mers; the alignment itself is defined by `match_fn`. With `with_match_scores` a constant scheme carries its
+/// exact summary, and a table with symbol-specific scores carries a "typical" one (largest diagonal entry, smallest
+/// off-diagonal entry, clamped to match >= 0 >= mismatch) that does not describe the function - soundness, validity and exactness on a full
+/// band hold whatever the hint says.
+pub fn scoring_for(sp: &ScoreSpec, with_match_scores: bool) -> bio::alignment::pairwise::Scoring<TableFn> {
+    let mut sc = sp.scoring(with_match_scores);
+    if with_match_scores && sc.match_scores.is_none() {
+        // inside the documented domain of a (match, mismatch) pair: match >= 0 >= mismatch (MatchParams::new asserts it)
+        let s = sp.sigma as usize;
+        let diag = (0..s).map(|i| sp.table[i * s + i]).max().unwrap_or(0).max(0);
+        let off = (0..s * s).filter(|i| i / s != i % s).map(|i| sp.table[i]).min().unwrap_or(-1).min(0);
+        sc.match_scores = Some((diag, off));
+    }
+    sc
+}
+
 fn new_aligner(c: &Case) -> Aligner<TableFn> {
-    Aligner::with_scoring(c.spec.scoring(c.with_match_scores), c.k, c.w)
+    Aligner::with_scoring(scoring_for(&c.spec, c.with_match_scores), c.k, c.w)
 }
 
 fn known_skip(c: &BCall) -> Option<&'static str> {
@@ -357,6 +374,7 @@ pub fn check(c: &Case) -> R {
     p.add_if(r.zero_clip, "zero-length clip op");
     p.add_if(!c.history.is_empty(), "reuse");
     p.add_if(c.with_match_scores && sp.uniform().is_some(), "match_scores: Some");
+    p.add_if(c.with_match_scores && sp.uniform().is_none(), "match_scores hint that does not describe match_fn");
     p.add_if(m == 0 || n == 0, "empty input");
     p.add_if(m < c.k || n < c.k, "sequence shorter than k");
     if let Some(s) = &c.call.shared {
@@ -560,7 +578,7 @@ pub mod large {
         ensure!(c.m >= 1 && c.n >= 1 && c.m <= 1100 && c.n <= 1100 && c.k >= 1, "harness: case outside the large-scale domain");
         let (x, y) = c01::large::gen_pair_junk(c.seed, c.m, c.n, c.content, c.spec.sigma, c.edits, c.junk);
         let call = BCall { entry: c.entry.clone(), x: B(x), y: B(y), shared: None };
-        let mk = || Aligner::with_scoring(c.spec.scoring(c.with_match_scores), c.k, c.w);
+        let mk = || Aligner::with_scoring(scoring_for(&c.spec, c.with_match_scores), c.k, c.w);
         let mut fresh = mk();
         let r = check_call("fresh aligner (large):", &mut fresh, &call, &c.spec, c.k, c.w)?;
         if let Some(e) = &c.earlier {
